@@ -1,6 +1,7 @@
 import Lean.Data.Json
 import NGF.Model.StatusPrep
 import NGF.Model.StatusJudge
+import NGF.Model.HandlerStatus
 import NGF.Model.Proto
 /-
 Driver entry for C07. Every input line is one JSON object written by harness/c07 (see run.go):
@@ -89,7 +90,11 @@ def pSummary (line : Json) : Except String Summary := do
     | some g => do pure (some (← pGateway g))
   let ign ← (← reqArr s "ignored").mapM fun g => do
     pure (ObjRef.mk (← reqStr g "ns") (← reqStr g "name") (← reqInt g "gen"))
-  return { controller := ← reqStr line "ctl", reloadErr := ← reqBool line "reloadErr", gateway := gw, ignored := ign,
+  -- handler stream: status preparation gets the result the REAL handler recorded (`prepErr`), not the truth
+  let rerr ← match optField line "prepErr" with
+    | some v => v.getBool?
+    | none => reqBool line "reloadErr"
+  return { controller := ← reqStr line "ctl", reloadErr := rerr, gateway := gw, ignored := ign,
            routes := ← (← reqArr s "routes").mapM pRoute,
            policies := ← (← reqArr s "policies").mapM pPolicy,
            btps := ← (← reqArr s "btps").mapM pBTP }
@@ -113,7 +118,9 @@ def pPrepared (line : Json) : Except String Prepared := do
 
 /-! ### correspondence: model(sum) against the real statuses -/
 
-def compare (m real : Prepared) : List String :=
+/-- `hist`: the real statuses have accumulated over a batch history; objects the current graph no longer writes keep
+their old status (judged as staleness by the judge, not a model mismatch) -/
+def compare (hist : Bool) (m real : Prepared) : List String :=
   let rk (r : RouteStatus) := routeKey r.kind r.ns r.name
   let gk (g : GatewayStatus) := g.ns ++ "/" ++ g.name
   let pk (p : PolicyStatus) := routeKey p.kind p.ns p.name
@@ -128,16 +135,48 @@ def compare (m real : Prepared) : List String :=
     | none => some ("gateway-object-missing:" ++ gk g)) ++
   (m.policies.filterMap fun p =>
     match real.policies.find? (fun x => pk x = pk p) with
-    | some x => if x.ancestors = p.ancestors then none else some ("policy:" ++ pk p)
+    | some x => if x.ancestors = p.ancestors || (hist && p.ancestors.isEmpty) then none else some ("policy:" ++ pk p)
     | none => if p.ancestors.isEmpty then none else some ("policy-object-missing:" ++ pk p)) ++
   -- every object the model does not write: real status untouched
+  (if hist then [] else
   (real.routes.filterMap fun x =>
     if m.routes.any (fun r => rk r = rk x) || x.parents.isEmpty then none else some ("route-unexpected:" ++ rk x)) ++
   (real.gateways.filterMap fun x =>
     if m.gateways.any (fun g => gk g = gk x) || (x.conds.isEmpty && x.listeners.isEmpty) then none
     else some ("gateway-unexpected:" ++ gk x)) ++
   (real.policies.filterMap fun x =>
-    if m.policies.any (fun p => pk p = pk x) || x.ancestors.isEmpty then none else some ("policy-unexpected:" ++ pk x))
+    if m.policies.any (fun p => pk p = pk x) || x.ancestors.isEmpty then none else some ("policy-unexpected:" ++ pk x)))
+
+/-! ### handler model against the real eventHandlerImpl -/
+
+open NGF.HandlerStatus in
+/-- replay the batch history with `HandlerStatus.step`; every batch must reproduce the observed
+latestReloadResult / version / "statuses were issued", and the final truth must be the harness's -/
+def handlerDiffs (line : Json) : Except String (List String) :=
+  match optField line "h" with
+  | none => pure []
+  | some h => do
+    let plus ← reqBool h "plus"
+    let bs ← reqArr h "batches"
+    let truth ← reqBool line "reloadErr"
+    let mut s := init
+    let mut out : List String := []
+    let mut idx := 0
+    for b in bs do
+      let ct ← reqStr b "ct"
+      let ctv := if ct = "c" then ChangeType.clusterState else if ct = "e" then ChangeType.endpointsOnly else ChangeType.noChange
+      let o : Outcome := ⟨← reqBool b "w", ← reqBool b "r", ← reqBool b "api"⟩
+      let (s', st) := step plus s ctv o
+      if s'.latestErr != (← reqBool b "obsErr") then
+        out := out ++ [s!"handler:latestReloadResult:batch{idx}:ct={ct}:model={s'.latestErr}"]
+      if s'.version != (← reqNat b "obsVer") then
+        out := out ++ [s!"handler:version:batch{idx}"]
+      if st.isSome != (← reqBool b "obsSt") then
+        out := out ++ [s!"handler:status-update-issued:batch{idx}"]
+      s := s'
+      idx := idx + 1
+    if s.failed != truth then out := out ++ ["handler:environment-truth"]
+    pure out
 
 def modelLine (line : String) : String :=
   match Json.parse line with
@@ -145,8 +184,11 @@ def modelLine (line : String) : String :=
   | .ok j =>
     match pSummary j, pPrepared j with
     | .ok s, .ok real =>
-      let d := compare (prepare s) real ++ (if s.wf then [] else ["wf:summary-of-the-real-graph-violates-Summary.wf"])
-      if d.isEmpty then "ok" else "diff " ++ ";".intercalate d
+      match handlerDiffs j with
+      | .error e => "bad-op h: " ++ e
+      | .ok hd =>
+        let d := compare (optField j "h").isSome (prepare s) real ++ (if s.wf then [] else ["wf:summary-of-the-real-graph-violates-Summary.wf"]) ++ hd
+        if d.isEmpty then "ok" else "diff " ++ ";".intercalate d
     | .error e, _ => "bad-op sum: " ++ e
     | _, .error e => "bad-op st: " ++ e
 
@@ -212,7 +254,10 @@ def pFacts (line : Json) : Except String GraphFacts := do
   return ⟨routeRefs, att, lr⟩
 
 def pInput (j : Json) : Except String Input := do
-  return { ctl := ← reqStr j "ctl", cls := ← reqStr j "cls", reloadErr := ← reqBool j "reloadErr",
+  let fk ← match optField j "failKind" with
+    | some v => v.getStr?
+    | none => pure ""
+  return { ctl := ← reqStr j "ctl", cls := ← reqStr j "cls", reloadErr := ← reqBool j "reloadErr", failKind := fk,
            objs := ← pObjs j, conf := ← pConf j, st := ← pPrepared j, facts := ← pFacts j }
 
 def judgeLine (line : String) : String :=
